@@ -1153,6 +1153,39 @@ func main() {
 		spec := genSpec(r)
 		h.checkSpec(spec, r, nDocs, i < 40)
 	}
+	// the construction-rule oracle: every fixed leaky definition must be refused
+	for _, spec := range leakySpecs() {
+		w := &world{orig: expand(spec), F: map[string]bool{}}
+		_, err := buildSchema(spec, w)
+		_, unbuildable := err.(*buildError)
+		ok := err != nil && !unbuildable
+		run.Count("leaky-definition")
+		run.Oblige("oracle: schema.New refuses every definition in which an element exposes a type needing more features than its owner (with and without defaults)", "oracle", 1, ok, fmt.Sprintf("accepted (or not expressible: %v): %s", err, canonSpec(expand(spec))))
+		h.checkSpec(spec, run.Rand.Fork(), 4, false) // ties Accepted; if the library accepts it, looks for the failing request
+	}
+	// fixed API-layer schemas with exactly one kind of gated element, and fixed requests using it
+	for _, ac := range singleGateAPICases() {
+		ac := ac
+		r := run.Rand.Fork()
+		origX := expand(ac.spec)
+		qs := func(F []string) []query {
+			out := append([]query{{Kind: "probe", Label: "schema-types", Text: schemaProbe}, {Kind: "probe", Label: "full-introspection", Text: string(introspectionQueryText)}}, ac.queries...)
+			for j := 0; j < 3; j++ {
+				G := fset(ac.spec.features())
+				if j == 0 {
+					G = fset(F)
+				}
+				d := genDoc(r.Fork(), origX, G)
+				out = append(out, query{Kind: "doc", Label: "doc", Text: d.text(), Vars: d.Vals, doc: d})
+			}
+			return out
+		}
+		if h.checkAPI(ac.spec, r, qs, ac.withWS) {
+			run.Count("api:single-gate-schema")
+		} else {
+			run.Oblige("fixed API schema mounts: "+ac.name, "oracle", 1, false, "cannot be mounted on apifu.Config")
+		}
+	}
 	// the same property through the application layer (feature-set plumbing of api.go / graphqlws.go)
 	nAPI, nWS := run.Scale(30, 200), run.Scale(6, 30)
 	for i, tries := 0, 0; i < nAPI && tries < nAPI*200; tries++ {
